@@ -725,7 +725,8 @@ class Ev:
         for h in st.handlers:
             self.env = dict(env0)
             for n in assigned_names(st.body):
-                self.env[n] = P.atom(("maybe", n, k))
+                # the handler may see the value from before the try (the assignment did not happen) or the new one
+                self.env[n] = P.atom(("maybe", n, k, env0[n])) if n in env0 else P.atom(("maybe", n, k))
             exc = self.ev(h.type) if h.type is not None else NONE
             self.guards = g0 + ((P.atom(("except", exc, k)), True),)
             if h.name:
